@@ -32,7 +32,8 @@ def _maps(terms):
 def slices(tier):
     out = _slices(tier)
     for sl in out:
-        sl.replacements = _maps(sl.terminals)
+        if not sl.jets:
+            sl.replacements = _maps(sl.terminals)
     return out
 
 
@@ -46,6 +47,12 @@ def _slices(tier):
         Slice("r2", [F, G, U, V], E1, 3, idx=(10,), levels=[{"mul", "index", "dot", "abs", "variable", "lt"}, {"add", "mul", "cond", "inner", "as_tensor", "variable"}, RP], mikinds=("name", "fixed"), **kw),
         Slice("deep", [F, G, H, U, V, W, A, B], E1 | E2, 6, idx=(10, 11), lits=[LIT["two"]], finalops=RP, tiny=True, replacements=MAPS, nenv=1, simulate=8 if q else 200, depth=7),
     ]
+    # replace applied to a derivative that has not been expanded yet, with images that contain the differentiation
+    # variable: the derivative is taken first (f independent of w), then f takes the value of its image
+    gj = dict(mode="gateaux", seeds={"w": ("dv", None)}, opts={"dv": {"kind": "arg0"}}, gateaux=[("w", "dv")])
+    out.append(Slice("under-derivative", [("w", ()), ("dv", ()), F, G], {"mul", "add", "pow"}, 4, lits=[LIT["two"]], jets=gj, nenv=1, tiny=True,
+                     levels=[{"mul", "add", "pow"}, {"gateaux1"}, RP, {"expand_derivatives"}], finalops={"expand_derivatives"}, only_final=True, chain="strict",
+                     replacements=[("f", ("term", "w")), ("f", ("prod", "g", "w")), ("f", ("sum", "g", "w")), ("g", ("term", "f"))]))
     if not q:
         out += [
             Slice("r2-mid", [F, G, H, U, V, W], E1, 3, idx=(10,), levels=[{"mul", "index", "dot", "abs", "variable", "lt", "add"}, E2, RP], mikinds=("name", "fixed"), **kw),
